@@ -172,14 +172,20 @@ func timerSeqBody(interval bool, ops []string) vsched.Body {
 }
 
 func timerRaceBody(interval bool, a, b timedOp, end int) vsched.Body {
+	return timerRaceBodyN(interval, []timedOp{a, b}, end)
+}
+
+func timerRaceBodyN(interval bool, all []timedOp, end int) vsched.Body {
 	var tops []timedOp
-	for _, p := range []timedOp{a, b} {
+	var whats []string
+	for _, p := range all {
 		if p.op != "" {
 			tops = append(tops, p)
 		}
+		whats = append(whats, fmt.Sprintf("%s@%d", p.op, p.at))
 	}
 	want := refOutcomes(interval, tops, end)
-	what := fmt.Sprintf("%s@%d || %s@%d", a.op, a.at, b.op, b.at)
+	what := strings.Join(whats, " || ")
 	// fingerprint detail: the racing operation classes, "@tick" when issued at an
 	// instant at which the timer is due (so that it races the timer goroutine)
 	cls := func(p timedOp) string {
@@ -195,9 +201,11 @@ func timerRaceBody(interval bool, a, b timedOp, end int) vsched.Body {
 		}
 		return c
 	}
-	parts := []string{cls(a)}
-	if cb := cls(b); cb != "" {
-		parts = append(parts, cb)
+	var parts []string
+	for _, p := range all {
+		if c := cls(p); c != "" {
+			parts = append(parts, c)
+		}
 	}
 	sort.Strings(parts)
 	fp := kindName(interval) + " " + strings.Join(parts, "||")
@@ -328,6 +336,48 @@ func init() {
 			}
 			c.Res.Distinct = int64(n)
 			c.Note("pairs of concurrent operations at instants before/at the due instant (and at the 2nd tick for intervals), all interleavings with the timer goroutine up to the preemption bound")
+		})
+		// three concurrent operations, all of them at instants at which the timer is due (so that
+		// each of them races the timer goroutine as well as the other two); cancel-before-refresh excluded
+		register("C19", "race3/"+kind, false, func(c *Ctx) {
+			ops3 := []string{"stop", "refresh"}
+			ats := []int{2}
+			if interval {
+				ats = []int{2, 4}
+			}
+			n := 0
+			for i, a := range ops3 {
+				for j, b := range ops3[i:] {
+					for _, d := range ops3[i+j:] {
+						for _, ta := range ats {
+							for _, tb := range ats {
+								for _, td := range ats {
+									tr := []timedOp{{a, ta}, {b, tb}, {d, td}}
+									ok := true
+									for _, p := range tr {
+										for _, q := range tr {
+											if p.op == "refresh" && q.op != "refresh" && q.at < p.at {
+												ok = false // refresh after cancel: unspecified
+											}
+										}
+									}
+									if (a == b && tb < ta) || (b == d && td < tb) || !ok {
+										continue
+									}
+									n++
+									id := fmt.Sprintf("%s:%s@%d||%s@%d||%s@%d", kind, a, ta, b, tb, d, td)
+									c.Explore(id, Pick(c, 2, 3), timerRaceBodyN(interval, tr, 7))
+									if n%7 == 1 {
+										c.Sample(id)
+									}
+								}
+							}
+						}
+					}
+				}
+			}
+			c.Res.Distinct = int64(n)
+			c.Note("triples of concurrent Stop/Refresh operations issued at due instants, all interleavings with the timer goroutine(s) up to the preemption bound")
 		})
 	}
 }
